@@ -37,6 +37,8 @@ def run(ctx):
   rule_subsets(ctx)
   rule_u2f(ctx)
   rule_accum(ctx)
+  rule_weight(ctx)
+  ctx.expect("R-C08-WEIGHT", 2, "two bias families with constant ladders")
   ctx.expect("R-C08-ACCUM", 2, "BiasedBaseCheck and CheckCr50U2f")
   # "signatures of other issuers in the same batch keep their own verdict": every signature gets an entry created for it alone (shared with C16)
   from . import c16
@@ -45,6 +47,8 @@ def run(ctx):
   # exact on every supported curve (shared with C11), and the (r, s, z) handed to the lattice must be the signature's own (shared with C09)
   from . import c11, c09
   ctx.borrow(c11.rule_comb, "R-C08-GUESS")
+  ctx.borrow(c11.rule_formula, "R-C08-GUESS", lambda r: r.where.endswith(("BatchDouble", "BatchAddList")))
+  ctx.borrow(c11.rule_dispatch, "R-C08-GUESS", lambda r: r.where.endswith(("BatchDouble", "BatchAddList")))
   ctx.borrow(c09.rule_feed, "R-C08-FEED")
   ctx.expect("R-C08-GUESS", 4, "comb obligations of BatchMultiplyG")
   ctx.expect("R-C08-FEED", 4, "ECDSAValues obligations")
@@ -662,3 +666,72 @@ def grown_from(w, cur, head, nm, added, depth=0):
               return why
           return ""
   return "the collection is rebound (it is %s at the end of a pass)" % (repr(p)[:80],)
+
+
+# ------------------------------------------------------------------ WEIGHT (default lattice weight by sample count)
+# The experimentally validated ladder of GetLattice (source comments: "chosen based on experiments ... against a large number of biased input sets"): the detection
+# guarantee at the stated margin (signatures x biased bits >= 2 x curve size) was established with these weights; e.g. three signatures with a 192-bit bias on a
+# 256-bit curve are only solved with w = 2^128.  bias value -> [(first sample count of the class, log2 w)]
+WEIGHT_LADDER = {
+    "MSB / COMMON_PREFIX": [(1, 128), (4, 64), (9, 48), (14, 32)],
+    "GENERALIZED": [(1, 64), (20, 48), (32, 64)],
+}
+
+
+def rule_weight(ctx):
+  R = "R-C08-WEIGHT"
+  repo = ctx.repo
+  f = repo.func("hidden_number_problem", "GetLattice")
+  w = sym.Walker(repo, f)
+  w.run()
+  from pcstatic import regions
+  pa, pw, pb = P("param", f.params()[0]), P("param", "w"), P("param", "bias")
+  LEN = sym.mk("len", pa)
+  bias_vals = {}
+  cb = repo.cls("hidden_number_problem", "Bias")
+  for k, v in cb.consts.items():
+    x = fold.try_fold(v)
+    if isinstance(x, int):
+      bias_vals[k] = x
+  groups = {"MSB / COMMON_PREFIX": [bias_vals.get("MSB"), bias_vals.get("COMMON_PREFIX")], "GENERALIZED": [bias_vals.get("GENERALIZED")]}
+  # constant weights chosen under `w is None`: (facts, log2 w)
+  choices = []
+  for e in w.events:
+    if e.kind != "assign" or not isinstance(e.data["value"], Poly) or e.data["value"].as_int() is None:
+      continue
+    if not any(fc[0] == "cmp" and fc[1] == "Is" and isinstance(fc[2], Poly) and fc[2] == pw and isinstance(fc[3], Const) and fc[3].v is None for fc in e.facts):
+      continue
+    wi = e.data["value"].as_int()
+    if wi <= 0 or wi & (wi - 1):
+      continue
+    choices.append(([(c_, pol_) for c_, pol_, nd_ in e.state.pc], wi.bit_length() - 1))
+  for gname, bvals in groups.items():
+    if any(b is None for b in bvals):
+      ctx.incomplete(R, f.where, gname, "Bias enum value not found")
+      continue
+    bad = None
+    n_eval = 0
+    for bval in bvals:
+      for m in range(1, 41):
+        val = regions.Valuation({LEN.as_atom(): m, pb.as_atom(): bval, sym.mk("len", P("param", f.params()[1])).as_atom(): m})
+        got = []
+        for facts, lg in choices:
+          okf = True
+          for fc, pol in facts:
+            if fc[0] == "cmp" and fc[1] in ("Is", "IsNot"):
+              continue
+            if fc[0] not in ("cmp", "and", "or", "not"):
+              continue
+            try:
+              if regions.eval_cond(fc, val) != pol:
+                okf = False
+                break
+            except regions.Unknown:
+              continue
+          if okf:
+            got.append(lg)
+        want = [lg for start, lg in WEIGHT_LADDER[gname] if start <= m][-1]
+        n_eval += 1
+        if sorted(set(got)) != [want] and bad is None:
+          bad = "with %d samples the default weight is %s, the validated ladder has 2^%d" % (m, " / ".join("2^%d" % g for g in sorted(set(got))) or "not a constant", want)
+    ctx.record(R, f.where, "default weight by sample count (%s)" % gname, bad is None, bad or "step function agrees with the validated ladder on 1..40 samples (%d evaluations)" % n_eval)
